@@ -16,6 +16,21 @@ def gen_cases(ctx, n_programs, n_inputs):
     cases = []
     while len(cases) < n_programs:
         rng = random.Random(ctx.rng.getrandbits(48))
+        if len(cases) % 4 == 3:
+            # enumerated shapes `agg w = max|min|second_highest(q) in c(q), cl1, cl2` with w used by the clauses: the aggregate's
+            # result is bound BEFORE the join, whatever the size ratio of the joined relations
+            dom = rng.choice([3, 4])
+            prog, input_rels, _ = G.enumerated_agg_program(rng, nrules=12, dom=dom)
+            assert not G.check_scoping(prog), (G.check_scoping(prog), prog.text())
+            name = 'c%d' % len(cases)
+            v = E.Variant('v0', prog, rng.choice(['ascent', 'ascent', 'ascent_par']))
+            case = P.Case(name, prog, [v], meta={'dom': dom, 'aggs': ['leading_agg_shapes']})
+            for ii in range(n_inputs):
+                case.jobs.append(P.Job('%s_i%d' % (name, ii), case, v, [r for r in G.enumerated_input(rng, dom) if r[0] != 'h'] + [('c', (x,)) for x in rng.sample(range(dom), rng.randrange(0, dom))]))
+            for j in case.jobs:
+                j.input_rows = list(dict.fromkeys(j.input_rows))
+            cases.append(case)
+            continue
         cfg = G2.default_cfg(lattices=rng.random() < 0.5, neg=True, agg=True, p_lattice=0.3, p_neg=0.25, p_agg=0.3)
         cfg.dom = rng.choice([3, 4, 5])
         cfg.n_rels, cfg.n_rules = (3, 6), (3, 8)
